@@ -170,10 +170,17 @@ EXCL_F = []
 DATA_NAMES = ["xs", "ss", "mixed", "lm", "d", "st", "dq", "nest", "recs", "nestd", "ys"]
 
 
-def _env(cls, asyncm, autoescape=False):
-    key = (cls.__name__, bool(asyncm), bool(autoescape))
+# non-default policy values: filters that consult env.policies must not fold them into their arguments
+POLICIES_ALT = {"urlize.rel": "nofollow", "urlize.target": "_blank", "urlize.extra_schemes": ["tel:", "x:"], "truncate.leeway": 0,
+                "json.dumps_kwargs": {"sort_keys": False}}
+
+
+def _env(cls, asyncm, autoescape=False, pol=0):
+    key = (cls.__name__, bool(asyncm), bool(autoescape), pol)
     if key not in ENVS:
-        ENVS[key] = cls(enable_async=bool(asyncm), autoescape=bool(autoescape), extensions=["jinja2.ext.do"])
+        e = ENVS[key] = cls(enable_async=bool(asyncm), autoescape=bool(autoescape), extensions=["jinja2.ext.do"])
+        if pol:
+            e.policies.update(copy.deepcopy(POLICIES_ALT))
     return ENVS[key]
 
 
@@ -422,6 +429,9 @@ def _filter_exprs(env):
         for p in params:
             if p.kind in (p.POSITIONAL_OR_KEYWORD, p.KEYWORD_ONLY):
                 shapes.append("(%s=ys)" % p.name)
+                # the same keyword with a string as the filter input (string filters reject or stringify containers early)
+                out.append((name, "ST|%s(%s=ys)" % (name, p.name)))
+                out.append((name, "ST|%s(%s=ss)" % (name, p.name)))
                 if any(q.name == "attribute" for q in params) and p.name != "attribute":
                     shapes.append("(attribute='k', %s=ys)" % p.name)
         if any(p.kind == p.VAR_KEYWORD for p in params) or name in ("map", "groupby", "unique", "sort", "min", "max", "sum", "join"):
@@ -455,7 +465,7 @@ def _fdata():
         xs=[3, 1, 2], ss=["b", "<a>", "c"], mixed=[1, None, 2.5, [4], ("t",)], lm=[Markup("<b>"), 1, [2], "<i>"],
         d={"k": 1, "b": [1, 2], "<": "&"}, st={1, 2, 3}, dq=deque([3, 1, 2]), nest=[[2, 1], [3], deque([5, 4]), {7, 6}],
         recs=[{"k": 2, "v": [1]}, {"k": 1, "v": [2]}, {"k": 2, "v": [3]}], nestd={"a": [1], "b": {"c": [2]}},
-        ys=[7, 8], zs=[9],
+        ys=[7, 8], zs=[9], ST="see http://a.b/<x> tel:12 www.c.d mailto:e@f.gh now and\n  then",
     )
 
 
@@ -463,7 +473,7 @@ def _filt_native(ei, di):
     asyncm = P.get("asyncm")
     ok = True
     _reset_shared()
-    for ae in (False, True):
+    for ae in (False, True, (False, 1), (True, 1)):
         t = FT[ei][ae]
         ctx = _fdata()
         ctx["D"] = ctx[DATA_NAMES[di]]
@@ -507,6 +517,59 @@ def filt_ok(e: int, d: int) -> bool:
         return _filt_native(ei, di)
 
 
+# ------------------------------------------------------------------ mode B: statements and globals handling context containers
+STMTS = [
+    "{% set ns = namespace(D) %}{% set ns.k = 5 %}{% set ns.fresh = ys %}{{ ns.k }}",
+    "{% set ns = namespace(D, z=1) %}{% set ns.k = 5 %}{% set ns.z %}blk{% endset %}{{ ns.z }}",
+    "{% set ns = namespace(D) %}{% set ns.k %}blk{% endset %}{% for i in xs %}{% set ns.k = ns.k ~ i %}{% endfor %}{{ ns.k }}",
+    "{% set ns = namespace(**D) %}{% set ns.k = 5 %}",
+    "{% set ns = namespace(a=D) %}{% set ns.a = 5 %}{% set ns.b = D %}{% set ns.b = ns.b|list %}",
+    "{% set c = dict(D) %}{% set ns = namespace(c) %}{% set ns.k = 2 %}{{ c|length }}",
+    "{% set c = dict(D, extra=ys) %}{{ c|length }}{% set c2 = dict(**D) %}{{ c2|length }}",
+    "{% set a = D %}{% set a = a|list + [1] %}{% with w = D %}{% set w = 1 %}{{ w }}{% endwith %}",
+    "{% macro m(a=D) %}{% set a = a|list + [1] %}{{ a|length }}{% endmacro %}{{ m() }}{{ m(ys) }}{{ m(a=xs) }}",
+    "{% macro m() %}{{ varargs|length }}{{ kwargs|length }}{% endmacro %}{{ m(D, ys, k=D, j=xs) }}{{ m(*ys, **{'a': D}) }}",
+    "{% set c = cycler(D, ys) %}{{ c.next() is defined }}{{ c.next() is defined }}{% set c2 = cycler(*xs) %}{{ c2.next() }}{{ c2.current }}",
+    "{% set j = joiner(ss|first) %}{{ j() }}{{ j() }}{% for i in D %}{{ loop.cycle(ys, xs)|length }}{{ loop.changed(D) }}{% endfor %}",
+    "{% for i in D %}{% set inner = namespace(v=i) %}{% set inner.v = 0 %}{% endfor %}{% for i in D|reverse if i %}{{ loop.length }}{% endfor %}",
+    "{% for k, v in d|items %}{% set v = 0 %}{% endfor %}{% for k in d %}{% set k = 0 %}{% endfor %}{{ d|length }}",
+    "{% filter replace('a', 'b') %}{{ D|string }}{% endfilter %}{% set s %}{{ D|string }}{% endset %}{{ s|length }}",
+    "{% do D|list|length %}{% set t = (D, ys) %}{% set t2 = t + (1,) %}{% set u, v = ys %}{% set u = 0 %}{{ ys|length }}",
+    "{{ range(ys|first)|list|length }}{{ lipsum(n=1, html=false)|length > 0 }}{{ dict(a=D).a is defined }}{{ (D, ys)|tojson|length }}",
+    "{% call(x) cm(D) %}{% set x = 0 %}{{ x }}{% endcall %}{% call cm2() %}{{ D|length }}{% endcall %}",
+]
+STMT_PRE = "{% macro cm(v) %}{{ caller(v) }}{% endmacro %}{% macro cm2() %}{{ caller() }}{% endmacro %}"
+ST_T = []
+
+
+def _stmt_native(si, di):
+    asyncm = P.get("asyncm")
+    ok = True
+    _reset_shared()
+    for t in ST_T[si]:
+        ctx = _fdata()
+        ctx["D"] = ctx[DATA_NAMES[di]]
+        before = copy.deepcopy(ctx)
+        try:
+            _render(t, asyncm, ctx)
+        except Exception:
+            pass
+        if ctx != before or ctx["D"] is not ctx[DATA_NAMES[di]]:
+            ok = False
+    return ok
+
+
+def stmt_ok(s: int, d: int) -> bool:
+    """
+    pre: 0 <= s < len(STMTS) and 0 <= d < len(DATA_NAMES)
+    post: _
+    """
+    si = _dec("s", s, len(STMTS))
+    di = _dec("d", d, len(DATA_NAMES))
+    with NoTracing():
+        return _stmt_native(si, di)
+
+
 def _all_exprs():
     return _filter_exprs(_env(ImmutableSandboxedEnvironment, False))
 
@@ -540,12 +603,18 @@ def setup(param):
         for name in DATA_METHODS[TNAME]:
             src = "c.pop(x)" if (TNAME, name) == ("dict", "pop") else DATA_SRC[name]
             TPL[("data", name)] = imm.from_string("{%% set r = %s %%}{{ rec('r', r) }}" % src)
+    elif kind == "stmt":
+        del ST_T[:]
+        for src in STMTS:
+            ST_T.append([_env(ImmutableSandboxedEnvironment, asyncm, ae, pol).from_string(STMT_PRE + src) for ae in (False, True) for pol in (0, 1)])
     elif kind == "filt":
         exprs = _all_exprs()
         k = P.get("chunk", 0)
         FEXPRS = exprs[k::NCHUNK]
         for _, ex in FEXPRS:
-            FT.append({ae: _env(ImmutableSandboxedEnvironment, asyncm, ae).from_string(FILTER_SRC % ex) for ae in (False, True)})
+            d = {ae: _env(ImmutableSandboxedEnvironment, asyncm, ae).from_string(FILTER_SRC % ex) for ae in (False, True)}
+            d.update({(ae, 1): _env(ImmutableSandboxedEnvironment, asyncm, ae, 1).from_string(FILTER_SRC % ex) for ae in (False, True)})
+            FT.append(d)
         data = _fdata()
         EXCL_F = [(ei, di) for ei, (_, ex) in enumerate(FEXPRS) for di, dn in enumerate(DATA_NAMES)
                   if _excluded_filter_input(ex, data[dn])]
@@ -578,6 +647,11 @@ def conditions(tier, seed):
                             bounds=f"every public name of {t} ({nm}, from dir()) x applicable argument tuples (<= {MAXA} of {len(ARGS)}) x "
                                    f"{len(ROUTES)} access routes; per selector both sample containers, each rendered before and after a plain "
                                    "SandboxedEnvironment rendered the same template"))
+    for asyncm in (False, True):
+        out.append(Cond(f"stmt_ok[{'async' if asyncm else 'sync'}]", "stmt_ok", mode="B", param={"kind": "stmt", "asyncm": asyncm}, timeout=to * 2 if not th else to,
+                        witnesses=[[0, 4], [3, 4], [5, 9], [8, 0], [len(STMTS) - 1, 7]],
+                        bounds=f"{len(STMTS)} statement templates (namespace()/dict()/cycler()/joiner() built from context containers, attribute assignment, set blocks, "
+                               f"macro defaults/varargs/kwargs, loops, call blocks) x {len(DATA_NAMES)} container data values x autoescape on/off x default/non-default policies"))
     nf = len(_all_exprs())
     for asyncm in (False, True):
         for k in range(NCHUNK):
@@ -586,5 +660,5 @@ def conditions(tier, seed):
                             param={"kind": "filt", "asyncm": asyncm, "chunk": k}, timeout=to * 2 if not th else to,
                             witnesses=[[0, 0], [n - 1, 7], [n // 2, 3], [n // 3, 10]],
                             bounds=f"{n} of {nf} generated filter expressions (every registered filter x argument shapes) x "
-                                   f"{len(DATA_NAMES)} container data values x autoescape on/off"))
+                                   f"{len(DATA_NAMES)} container data values x autoescape on/off x default/non-default policies"))
     return out
